@@ -176,6 +176,8 @@ def install(ctx):
 def gen_rect(rng):
     c = rng.random()
     scale = rng.choice((1e-3, 1.0, 1.0, 100.0, 1e4, 1e6))
+    if rng.random() < 0.06:
+        scale = rng.choice((1e-170, 1e-120, 1e-12, 1e60, 1e120, 1e160))     # extreme but finite magnitudes
     if c < 0.25:
         x0, y0 = rng.randint(-5, 5), rng.randint(-5, 5)
         return "lattice", (x0, y0), (x0 + rng.randint(1, 8), y0 + rng.randint(1, 8)), 1.0
@@ -219,6 +221,10 @@ def gen_case(rng):
     rcls, lo, hi, scale = gen_rect(rng)
     lattice = rcls == "lattice"
     classes = ["rect:" + rcls]
+    if scale >= 1e60:
+        classes.append("scale:huge (1e60..1e160)")
+    elif scale <= 1e-12:
+        classes.append("scale:tiny (1e-170..1e-12)")
     r1, r2 = rng.randrange(9), rng.randrange(9)
     p1 = [coord_in_band(rng, r1 % 3, lo[0], hi[0], scale, lattice),
           coord_in_band(rng, r1 // 3, lo[1], hi[1], scale, lattice)]
@@ -289,7 +295,7 @@ def run(ctx):
     for cls in ("rect:lattice", "rect:zero-width rectangle", "rect:zero-area rectangle", "rect:continuous",
                 "rect:page at origin", "zero-length segment", "vertical segment", "horizontal segment",
                 "collinear with an edge", "through a corner", "endpoint on a corner",
-                "answer:accept", "answer:reject",
+                "answer:accept", "answer:reject", "scale:huge (1e60..1e160)", "scale:tiny (1e-170..1e-12)",
                 "grazing (inside only within tolerance): either answer accepted"):
         ctx.need(cls, 100)
     ctx.need("monitor:clip_segment evaluated", 20_000)
